@@ -562,6 +562,12 @@ class _ConcreteIter:
         return f"<iter {self.items[self.pos:]}>"
 
 
+class _CycleIter(_ConcreteIter):
+    """itertools.cycle(<concrete items>): never exhausted; only consumed by zip() next to a finite partner."""
+
+    cyclic = True
+
+
 def subst_star(v, n, _d=0):
     """Replace Elem(x, '*') by Elem(x, n) throughout a value."""
     from .terms import App, Attr, Comp, FStr, Mut, Op, Sub
